@@ -242,11 +242,12 @@ def produce(channel, records, descriptors, indent):
         if not descriptors:
             kw["descriptors"] = False
         w = RecordWriter(path, **kw)
-    else:  # uri with query
+    else:  # uri with query (the boolean spelled in several ways: the option is case-insensitive, 1/0 count too)
         path = base + ".json"
         q = []
-        if not descriptors:
-            q.append("descriptors=false")
+        spelling = {"uri": ("true", "false"), "uri-upper": ("TRUE", "FALSE"), "uri-mixed": ("tRuE", "False"), "uri-digit": ("1", "0")}[channel]
+        if not descriptors or channel != "uri":
+            q.append("descriptors=" + spelling[0 if descriptors else 1])
         if indent is not None:
             q.append("indent=%d" % indent)
         w = RecordWriter("jsonfile://" + path + ("?" + "&".join(q) if q else ""))
@@ -289,7 +290,7 @@ def run_case(case):
     outs = []
     n = 0
     tkey = case["t"] if case["kind"] == "single" else case["kind"]
-    channels = ["packer", "adapter", "rw.json", "rw.jsonl", "uri", "stdout-close", "stdout-with"]  # (a .gz JSON target is a C11 matter: the text writer cannot open it)
+    channels = ["packer", "adapter", "rw.json", "rw.jsonl", "uri", "uri-upper", "uri-mixed", "uri-digit", "stdout-close", "stdout-with"]  # (a .gz JSON target is a C11 matter: the text writer cannot open it)
     for descriptors, indent, ch in itertools.product((True, False), (None, 0, 2), channels):
         n += 1
         cfg = "desc=%s,indent=%s" % (descriptors, indent)
